@@ -503,35 +503,42 @@ inductive UStep where
   | accept                     -- `return nil` (historic exemption: the rest of the uncles is not looked at)
   | reject (e : VErr)
 
+/-- the part of the loop body after the duplicate test (`seen` already contains the uncle's hash). -/
+def uncleTail (env : Env) (chain : Chain) (block : Block) (ancs : List Header) (number : Nat) (seen : List Nat) (u : Header) : UStep :=
+  if (lookupAnc ancs u.hash).isSome then .reject .uncleIsAncestor
+  else
+    match (if u.parentHash = block.header.parentHash then none else lookupAnc ancs u.parentHash) with
+    | none =>
+      if number > 15000 then .reject .danglingUncle
+      else if danglingParentExemptions.contains (u.parentHash, u.number) then .accept
+      else if danglingHashExemptions.contains (u.hash, u.number) then .accept
+      else .reject .danglingUncle
+    | some parent =>
+      match verifyHeader env u parent (resolveGrand chain parent (lookupAnc ancs parent.parentHash)) true true with
+      | some e => .reject e
+      | none => .next seen
+
+/-- the duplicate test: `uncles.Contains(hash)` with the three block-hash keyed exemptions below 15000. -/
+def dupOk (block : Block) (number : Nat) (seen : List Nat) (u : Header) : Bool :=
+  if seen.contains u.hash then
+    if number > 15000 then false else dupExemptions.contains (block.header.hash, u.number)
+  else true
+
 /-- body of `for _, uncle := range block.Uncles()`. -/
 def uncleStep (env : Env) (chain : Chain) (block : Block) (ancs : List Header) (number : Nat) (seen : List Nat) (u : Header) : UStep :=
-  let dupOk : Bool :=
-    if seen.contains u.hash then
-      if number > 15000 then false else dupExemptions.contains (block.header.hash, u.number)
-    else true
-  if !dupOk then .reject .duplicateUncle
-  else
-    let seen := u.hash :: seen
-    if (lookupAnc ancs u.hash).isSome then .reject .uncleIsAncestor
-    else
-      match (if u.parentHash = block.header.parentHash then none else lookupAnc ancs u.parentHash) with
-      | none =>
-        if number > 15000 then .reject .danglingUncle
-        else if danglingParentExemptions.contains (u.parentHash, u.number) then .accept
-        else if danglingHashExemptions.contains (u.hash, u.number) then .accept
-        else .reject .danglingUncle
-      | some parent =>
-        match verifyHeader env u parent (resolveGrand chain parent (lookupAnc ancs parent.parentHash)) true true with
-        | some e => .reject e
-        | none => .next seen
+  if !dupOk block number seen u then .reject .duplicateUncle
+  else uncleTail env chain block ancs number (u.hash :: seen) u
+
+/-- what the loop does with the outcome of one iteration. -/
+def loopCont (r : UStep) (k : List Nat → Option VErr) : Option VErr :=
+  match r with
+  | .reject e => some e
+  | .accept => none
+  | .next seen' => k seen'
 
 def uncleLoop (env : Env) (chain : Chain) (block : Block) (ancs : List Header) (number : Nat) : List Nat → List Header → Option VErr
   | _, [] => none
-  | seen, u :: rest =>
-    match uncleStep env chain block ancs number seen u with
-    | .reject e => some e
-    | .accept => none
-    | .next seen' => uncleLoop env chain block ancs number seen' rest
+  | seen, u :: rest => loopCont (uncleStep env chain block ancs number seen u) (fun seen' => uncleLoop env chain block ancs number seen' rest)
 
 /-- `(*Aquahash).VerifyUncles` (not ModeFullFake; block version set). -/
 def verifyUncles (env : Env) (chain : Chain) (block : Block) : Option VErr :=
@@ -574,6 +581,30 @@ def UnclesOkFrom (S : DiffParams) (cfg : Config) (sealBad : Header → Bool) (ch
 def UnclesValid (S : DiffParams) (cfg : Config) (sealBad : Header → Bool) (chain : Chain) (block : Block) : Prop :=
   block.uncles.length ≤ (if cfg.isHF 5 block.header.number then 1 else 2) ∧
   UnclesOkFrom S cfg sealBad chain block [] block.uncles
+
+/-- the declarative uncle rules WITH the grandfather clauses of mainnet history: while `low` (the loop variable `number` is
+    not above 15000) an uncle that was rewarded before is tolerated if (block hash, uncle number) is a listed pair, and a
+    dangling uncle ends the check with acceptance if (uncle parent hash, number) or (uncle hash, number) is a listed pair. -/
+def UnclesOkFromEx (S : DiffParams) (cfg : Config) (sealBad : Header → Bool) (chain : Chain) (block : Block) (low : Bool) :
+    List Header → List Header → Prop
+  | _, [] => True
+  | earlier, u :: rest =>
+    (((∀ a ∈ ancestorsOf chain 7 block.header.parentHash (subU64 block.header.number 1), ∀ v ∈ a.uncles, v.hash ≠ u.hash) ∧
+        u.hash ≠ block.header.hash ∧ (∀ v ∈ earlier, v.hash ≠ u.hash)) ∨
+      (low = true ∧ (block.header.hash, u.number) ∈ dupExemptions)) ∧
+    u.hash ≠ block.header.hash ∧
+    (∀ a ∈ ancestorsOf chain 7 block.header.parentHash (subU64 block.header.number 1), a.header.hash ≠ u.hash) ∧
+    (match (if u.parentHash = block.header.parentHash then none
+            else lookupAnc (((ancestorsOf chain 7 block.header.parentHash (subU64 block.header.number 1)).map (·.header)).reverse) u.parentHash) with
+     | some p => HeaderValid S cfg 0 sealBad u p true true ∧ UnclesOkFromEx S cfg sealBad chain block low (earlier ++ [u]) rest
+     | none => low = true ∧ ((u.parentHash, u.number) ∈ danglingParentExemptions ∨ (u.hash, u.number) ∈ danglingHashExemptions))
+
+/-- **Spec with exemptions**: at most 2 uncles (1 from HF5), each acceptable or grandfathered. -/
+def UnclesValidEx (S : DiffParams) (cfg : Config) (sealBad : Header → Bool) (chain : Chain) (block : Block) : Prop :=
+  block.uncles.length ≤ (if cfg.isHF 5 block.header.number then 1 else 2) ∧
+  UnclesOkFromEx S cfg sealBad chain block
+    (decide ((gatherFamily chain 7 block.header.parentHash (subU64 block.header.number 1) { ancestors := [], pastUncles := [], number := 0 }).number ≤ 15000))
+    [] block.uncles
 
 instance (S : DiffParams) (cfg : Config) (now : Nat) (sealBad : Header → Bool) (h parent : Header) (uncle doSeal : Bool) :
     Decidable (HeaderValid S cfg now sealBad h parent uncle doSeal) := by
